@@ -104,9 +104,17 @@ HandleProblems(e, s, mrep, mfx, mnm) ==
                THEN <<P("VIOL", "C05", "effect-without-privilege", [d EXCEPT !.changed = changed \ allowed])>> ELSE <<>>)
        \o (IF none /\ e.nrep > 1 THEN <<P("VIOL", "C05", "several-replies-to-refused-request", d)>> ELSE <<>>)
        \o (IF all /\ isErr /\ ~refused /\ EffOf(r) # {} /\ r.sp # "occupied" THEN <<P("DRIFT", "C05", "request failed for another reason", d)>> ELSE <<>>)
-       \o (IF all /\ e.reply = "closed" THEN <<P("DRIFT", "C05", "connection closed instead of a reply", d)>> ELSE <<>>)
-       \o (IF all /\ ~isErr /\ e.reply # "closed" /\ r.sp # "occupied" /\ ~(expect \subseteq changed)
-               THEN <<P("DRIFT", "C05", "expected effect not observed", [d EXCEPT !.changed = expect \ changed])>> ELSE <<>>)
+       (* the requester holds the privilege of every reading and the request is well-formed: "with it the request is
+          never refused" - a closed connection, no reply, or a reply without the effect is a refusal in all but name.
+          (The delayed disconnect is awaited with a bound: its absence alone is timing, hence drift.) *)
+       \o (IF all /\ e.reply = "closed" /\ EffOf(r) # {} /\ r.sp # "occupied"
+               THEN <<P("VIOL", "C05", "permitted-request-not-executed", d)>> ELSE <<>>)
+       \o (IF all /\ e.reply = "closed" /\ ~(EffOf(r) # {} /\ r.sp # "occupied")
+               THEN <<P("DRIFT", "C05", "connection closed instead of a reply", d)>> ELSE <<>>)
+       \o (IF all /\ ~isErr /\ e.reply # "closed" /\ r.sp # "occupied" /\ ~((expect \ {"closed"}) \subseteq changed)
+               THEN <<P("VIOL", "C05", "permitted-request-not-executed", [d EXCEPT !.changed = expect \ changed])>> ELSE <<>>)
+       \o (IF all /\ ~isErr /\ e.reply # "closed" /\ r.sp # "occupied" /\ (expect \ {"closed"}) \subseteq changed /\ ~(expect \subseteq changed)
+               THEN <<P("DRIFT", "C05", "expected disconnect not observed within the bound", [d EXCEPT !.changed = expect \ changed])>> ELSE <<>>)
        \o (IF (all /\ mrep # "ok") \/ (none /\ mrep # "refused")
                THEN <<P("DRIFT", "C05", "model and readings disagree", d)>> ELSE <<>>)
 
@@ -126,8 +134,10 @@ CreateProblems(e, s, mrep, maccts) ==
      THEN <<P("VIOL", "C06", "amplified-on-disk", [d EXCEPT !.disk = diskS \ s.acc])>> ELSE <<>>)
   \o (IF (inMem \/ onDisk) /\ 14 \notin s.acc
      THEN <<P("VIOL", "C05", "account-created-without-privilege", d)>> ELSE <<>>)
-  \o (IF created /\ (~inMem \/ ~onDisk) /\ (s.shape = "full" \/ e.reply = "ok")   \* (an odd field shape may be rejected)
-        THEN <<P("DRIFT", "C06", "permitted creation did not happen", d)>> ELSE <<>>)
+  \o (IF created /\ (~inMem \/ ~onDisk) /\ s.shape = "full" /\ ~(e.reply = "err" /\ ~IsRefusalText(e.etext))
+        THEN <<P("VIOL", "C05", "permitted-request-not-executed", d)>> ELSE <<>>)   \* (C05: never refused with the privilege)
+  \o (IF created /\ (~inMem \/ ~onDisk) /\ ((s.shape = "full" /\ e.reply = "err" /\ ~IsRefusalText(e.etext)) \/ (s.shape # "full" /\ e.reply = "ok"))
+        THEN <<P("DRIFT", "C06", "permitted creation did not happen", d)>> ELSE <<>>)   \* (an odd field shape may be rejected)
   \o (IF ~created /\ (inMem \/ onDisk) /\ 14 \in s.acc /\ memS \subseteq s.acc /\ diskS \subseteq s.acc
      THEN <<P("DRIFT", "C06", "account exists although the model refuses", d)>> ELSE <<>>)
   \o (IF created /\ inMem /\ onDisk /\ (memS # EffWant(s) \/ diskS # EffWant(s) \cap Defined)
@@ -142,8 +152,13 @@ KickProblems(e, s, mlive, mbanned) ==
   \o (IF prot /\ e.banned THEN <<P("VIOL", "C06", "protected-user-banned", d)>> ELSE <<>>)
   \o (IF ~prot /\ 22 \notin s.acc /\ (e.closed \/ e.banned)
           THEN <<P("VIOL", "C05", "disconnect-without-privilege", d)>> ELSE <<>>)
-  \o (IF ~prot /\ 22 \in s.acc /\ (e.closed # ("other" \notin mlive) \/ e.banned # ("other" \in mbanned))
+  \o (IF ~prot /\ 22 \in s.acc /\ (e.reply \in {"closed", "none"} \/ (e.reply = "err" /\ IsRefusalText(e.etext))
+                                     \/ (e.reply = "ok" /\ s.ban > 0 /\ ~e.banned))
+          THEN <<P("VIOL", "C05", "permitted-request-not-executed", d)>> ELSE <<>>)
+  \o (IF ~prot /\ 22 \in s.acc /\ e.reply = "ok" /\ (~e.closed \/ (s.ban = 0 /\ e.banned))
           THEN <<P("DRIFT", "C06", "disconnect outcome differs from the model", d)>> ELSE <<>>)
+  \o (IF ~prot /\ 22 \in s.acc /\ e.reply = "err" /\ ~IsRefusalText(e.etext)
+          THEN <<P("DRIFT", "C06", "disconnect request failed for another reason", d)>> ELSE <<>>)
   \o (IF s.third # "none" /\ 23 \in s.pacc /\ e.pclosed
           THEN <<P("VIOL", "C06", "protected-bystander-disconnected", [d EXCEPT !.tacc = s.pacc])>> ELSE <<>>)
   \o (IF s.third # "none" /\ 23 \notin s.pacc /\ e.pclosed # ("prot" \notin mlive)
@@ -167,24 +182,28 @@ RtProblems(e, s) ==
       V(what, got, want) == IF got # want THEN <<P("VIOL", "C16", what, Diff(got, want))>> ELSE <<>>
       D(what, got, want) == IF got # want THEN <<P("DRIFT", "C16", what, Diff(got, want))>> ELSE <<>>
   IN
+  (IF e.dworld # "ok" THEN <<P("DRIFT", "C16", "no world for the login part: " \o e.dworld, [n |-> 0])>> ELSE <<>>) \o
   V("load-named", aS, SD)                                \* named file with Save(S) true -> exactly S /\ Defined
   \o V("save-named", bK, names)                        \* account with ToBytes(S) saved -> exactly the keys Save(S)
   \o V("legacy-load", cM \cap Defined, SD)             \* legacy array -> same defined privileges
   \o V("legacy-migrated-file", cK, names)
   \o V("legacy-reload", cR, SD)
-  \o V("authorize", dA \cap Defined, SD)               \* decision i <=> i in S
-  \o V("wire", dW \cap Defined, SD)                    \* bit i of the user-access field <=> i in S
-  \o V("wire-vs-authorize", dW, dA)                    \* all 64 numbers: the wire and the decisions agree
   \o D("file keys", SeqToSet(e.ball), AllNames)
   \o D("undefined bits after legacy load", cM \ Defined, S \ Defined)
-  \o D("undefined bits in authorization", dA \ Defined, S \ Defined)
   \o (IF e.cform # "map" \/ e.bform # "map" THEN <<P("DRIFT", "C16", "account file not in named form", [b |-> e.bform, c |-> e.cform])>> ELSE <<>>)
-  \o V("authorize (1.2.3-style login)", oA \cap Defined, SD)       \* the same for a session logged in the old way
-  \o V("wire (1.2.3-style login)", oW \cap Defined, SD)
-  \o V("wire-vs-authorize (1.2.3-style login)", oW, oA)
-  \o D("undefined bits in authorization (1.2.3-style login)", oA \ Defined, S \ Defined)
-  \o (IF e.onwire # 1 THEN <<P("DRIFT", "C16", "user-access transactions at a 1.2.3-style login", [n |-> e.onwire])>> ELSE <<>>)
-  \o (IF e.nwire # 1 THEN <<P("DRIFT", "C16", "user-access transactions at login", [n |-> e.nwire])>> ELSE <<>>)
+  \o (IF e.dworld = "ok" THEN
+        <<>>
+      \o V("authorize", dA \cap Defined, SD)               \* decision i <=> i in S
+      \o V("wire", dW \cap Defined, SD)                    \* bit i of the user-access field <=> i in S
+      \o V("wire-vs-authorize", dW, dA)                    \* all 64 numbers: the wire and the decisions agree
+      \o D("undefined bits in authorization", dA \ Defined, S \ Defined)
+      \o V("authorize (1.2.3-style login)", oA \cap Defined, SD)       \* the same for a session logged in the old way
+      \o V("wire (1.2.3-style login)", oW \cap Defined, SD)
+      \o V("wire-vs-authorize (1.2.3-style login)", oW, oA)
+      \o D("undefined bits in authorization (1.2.3-style login)", oA \ Defined, S \ Defined)
+      \o (IF e.onwire # 1 THEN <<P("DRIFT", "C16", "user-access transactions at a 1.2.3-style login", [n |-> e.onwire])>> ELSE <<>>)
+      \o (IF e.nwire # 1 THEN <<P("DRIFT", "C16", "user-access transactions at login", [n |-> e.nwire])>> ELSE <<>>)
+      ELSE <<>>)
   \o (IF ToBytes(S) # e.bytes THEN <<P("DRIFT", "C16", "script bytes are not ToBytes(S)", [b |-> e.bytes])>> ELSE <<>>)
 
 (* several sessions of one account, the account is edited, then session k is kicked / creates an account.
@@ -206,11 +225,12 @@ MultiProblems(e, s, mrep, maccts) ==
   ELSE IF s.kind = "kick" THEN
        (IF 23 \in s.a1 /\ anyClosed THEN <<P("VIOL", "C06", "protected-session-disconnected-after-edit", d)>> ELSE <<>>)
        \o (IF 23 \in s.a1 /\ e.banned THEN <<P("VIOL", "C06", "protected-session-banned-after-edit", d)>> ELSE <<>>)
-       \o (IF 23 \notin s.a1 /\ ~e.sclosed[s.k] THEN <<P("DRIFT", "C06", "unprotected session not disconnected", d)>> ELSE <<>>)
+       \o (IF 23 \notin s.a1 /\ e.reply # "ok" THEN <<P("VIOL", "C05", "permitted-request-not-executed", d)>> ELSE <<>>)
+       \o (IF 23 \notin s.a1 /\ e.reply = "ok" /\ ~e.sclosed[s.k] THEN <<P("DRIFT", "C06", "unprotected session not disconnected within the bound", d)>> ELSE <<>>)
   ELSE
        (IF inMem /\ ~(memS \subseteq s.a1) THEN <<P("VIOL", "C06", "amplified-in-memory-after-edit", [d EXCEPT !.mem = memS \ s.a1])>> ELSE <<>>)
        \o (IF onDisk /\ ~(diskS \subseteq s.a1) THEN <<P("VIOL", "C06", "amplified-on-disk-after-edit", [d EXCEPT !.disk = diskS \ s.a1])>> ELSE <<>>)
-       \o (IF ("newacct" \in DOMAIN maccts) /\ (~inMem \/ ~onDisk) THEN <<P("DRIFT", "C06", "permitted creation did not happen", d)>> ELSE <<>>)
+       \o (IF ("newacct" \in DOMAIN maccts) /\ (~inMem \/ ~onDisk) THEN <<P("VIOL", "C05", "permitted-request-not-executed", d)>> ELSE <<>>)
 
 (* a live session's account is changed by an administrator *)
 UpdProblems(e, s) ==
